@@ -257,7 +257,7 @@ Qed.
 
 Lemma xnc_lay_stmt s : stmt_nc s.
 Proof.
-  induction s as [ce body IH | fid body IH | s Hs] using stmt_ind2; intros inrep st.
+  induction s as [ce body IH | own fid body IH | s Hs] using stmt_ind2; intros inrep st.
   - rewrite lay_stmt_repeat. apply xnc_bind; [apply xnc_lev|]. intros n.
     apply xnc_bind; [apply xnc_lift, nc_gai_count|]. intros n'.
     apply xnc_iter. intros st0. apply xnc_lay_list. exact IH.
@@ -268,7 +268,7 @@ Qed.
 
 Lemma xnc_find_base q : xnc (find_base enc alldefs allkeys exports fuel q).
 Proof.
-  unfold find_base. destruct (first_base q); [|exact I].
+  unfold find_base. destruct (first_base 0 q) as [[f0 e0]|]; [|exact I].
   apply xnc_bind; [apply xnc_xev; unfold fuel; split; [constructor|]; split; [intros x []|]; simpl; lia|]. intros; apply xnc_lift, nc_gai16.
 Qed.
 
